@@ -3324,4 +3324,208 @@ theorem divrem_1_spec (qxn : Nat) (u : List Nat) (d : Nat) (hu : Limbs u) (hd0 :
       exact divrem_1_hensel_path u d hu hne hd0 hdB
 
 
+/-! ### udiv_qrnnd_preinv1 (the branching variant; not selected in this build) -/
+
+/-- the estimate q0 = nh + ⌊nh·di/B⌋ is never too large and at most three too small: 0 ≤ n − q0·d < B + 2d -/
+theorem preinv1_core (nh nl d di : Nat) (h1 : B / 2 ≤ d) (h2 : d < B) (hnh : nh < d) (hnl : nl < B)
+    (hv1 : (B + di) * d ≤ B * B - 1) (hv2 : B * B - 1 < (B + di + 1) * d) :
+    (nh * di / B + nh) * d ≤ nh * B + nl ∧ nh * B + nl < (nh * di / B + nh) * d + B + 2 * d := by
+  have hB := B_pos
+  have hBB : 0 < B * B := Nat.mul_pos hB hB
+  have hdm := Nat.div_add_mod' (nh * di) B
+  have hb := Nat.mod_lt (nh * di) hB
+  generalize nh * di / B = a at *
+  generalize nh * di % B = b at *
+  -- k = B² − (B+di)·d
+  obtain ⟨k, hk, hk1, hk2⟩ : ∃ k, (B + di) * d + k = B * B ∧ 1 ≤ k ∧ k ≤ d := by
+    refine ⟨B * B - (B + di) * d, by omega, by omega, ?_⟩
+    have : (B + di + 1) * d = (B + di) * d + d := by ring
+    omega
+  -- (n − q0 d)·B = nl·B + nh·k + b·d
+  have key : (a + nh) * d * B + (nl * B + nh * k + b * d) = (nh * B + nl) * B := by
+    have e1 : (a + nh) * d * B = (a * B + nh * B) * d := by ring
+    have e2 : a * B = nh * di - b := by omega
+    have e3 : (a * B + nh * B) * d + b * d = nh * ((B + di) * d) := by
+      have : a * B + b = nh * di := hdm
+      calc (a * B + nh * B) * d + b * d = (a * B + b + nh * B) * d := by ring
+        _ = (nh * di + nh * B) * d := by rw [this]
+        _ = nh * ((B + di) * d) := by ring
+    have e4 : nh * ((B + di) * d) + nh * k = nh * (B * B) := by rw [← Nat.mul_add, hk]
+    calc (a + nh) * d * B + (nl * B + nh * k + b * d)
+        = ((a * B + nh * B) * d + b * d) + nh * k + nl * B := by rw [e1]; ring
+      _ = nh * ((B + di) * d) + nh * k + nl * B := by rw [e3]
+      _ = nh * (B * B) + nl * B := by rw [e4]
+      _ = (nh * B + nl) * B := by ring
+  constructor
+  · have : (a + nh) * d * B ≤ (nh * B + nl) * B := by omega
+    exact Nat.le_of_mul_le_mul_right this hB
+  · have b1 : nl * B ≤ (B - 1) * B := Nat.mul_le_mul_right _ (by omega)
+    have b2 : nh * k ≤ (d - 1) * d := Nat.mul_le_mul (by omega) hk2
+    have b3 : b * d ≤ (B - 1) * d := Nat.mul_le_mul_right _ (by omega)
+    have b4 : (d - 1) * d ≤ (d - 1) * B := Nat.mul_le_mul_left _ (Nat.le_of_lt h2)
+    have hlt : (nh * B + nl) * B < ((a + nh) * d + B + 2 * d) * B := by
+      have e : ((a + nh) * d + B + 2 * d) * B = (a + nh) * d * B + B * B + 2 * d * B := by ring
+      rw [e, ← key]
+      have : (B - 1) * B + (d - 1) * B + (B - 1) * d < B * B + 2 * d * B := by
+        have e1 : (B - 1) * B + B = B * B := by
+          have : (B - 1 + 1) * B = B * B := by rw [Nat.sub_add_cancel hB]
+          rw [← this]; ring
+        have e2 : (d - 1) * B + B = d * B := by
+          have : (d - 1 + 1) * B = d * B := by rw [Nat.sub_add_cancel (by omega)]
+          rw [← this]; ring
+        have e3 : (B - 1) * d + d = B * d := by
+          have : (B - 1 + 1) * d = B * d := by rw [Nat.sub_add_cancel hB]
+          rw [← this]; ring
+        have e4 : 2 * d * B = d * B + B * d := by ring
+        omega
+      omega
+    exact Nat.lt_of_mul_lt_mul_right hlt
+
+theorem udiv_qrnnd_preinv1_eq (nh nl d : Nat) (h1 : B / 2 ≤ d) (h2 : d < B) (hnh : nh < d) (hnl : nl < B) :
+    udiv_qrnnd_preinv1 nh nl d (invert_limb d) = ((nh * B + nl) / d, (nh * B + nl) % d) := by
+  obtain ⟨hv, hv1, hv2⟩ := invert_limb_bounds d h1 h2
+  generalize invert_limb d = di at *
+  obtain ⟨c1, c2⟩ := preinv1_core nh nl d di h1 h2 hnh hnl hv1 hv2
+  have hB := B_pos
+  have hBB : 0 < B * B := Nat.mul_pos hB hB
+  have hd0 : 0 < d := by omega
+  have hnlt : nh * B + nl < d * B := by
+    have : (nh + 1) * B ≤ d * B := Nat.mul_le_mul_right _ hnh
+    have : (nh + 1) * B = nh * B + B := by ring
+    omega
+  have hq0B : nh * di / B + nh < B := by
+    have : (nh * di / B + nh) * d < B * d := by rw [Nat.mul_comm B d]; omega
+    exact Nat.lt_of_mul_lt_mul_right this
+  unfold udiv_qrnnd_preinv1
+  simp only [umul_ppmm_eq]
+  rw [Nat.mod_eq_of_lt hq0B]
+  generalize nh * di / B + nh = q0 at *
+  -- the first subtraction: R = n − q0·d, no borrow
+  have hdBB : d * B ≤ B * B := Nat.mul_le_mul_right _ (Nat.le_of_lt h2)
+  have hXlt : q0 * d < B * B := by omega
+  rw [sub_ddmmss_eq nh nl _ _ (by omega) hnl ((Nat.div_lt_iff_lt_mul hB).mpr hXlt) (Nat.mod_lt _ hB),
+    Nat.div_add_mod', pair2_mod]
+  have hR : (nh * B + nl + B * B - q0 * d) % (B * B) = nh * B + nl - q0 * d := by
+    have : nh * B + nl + B * B - q0 * d = (nh * B + nl - q0 * d) + B * B := by omega
+    rw [this, Nat.add_mod_right, Nat.mod_eq_of_lt (by omega)]
+  rw [hR]
+  simp only
+  obtain ⟨R, hRdef⟩ : ∃ R, nh * B + nl - q0 * d = R := ⟨_, rfl⟩
+  rw [hRdef]
+  have hn : nh * B + nl = q0 * d + R := by omega
+  have hRlt : R < B + 2 * d := by omega
+  have hBd : B ≤ 2 * d := by simp only [B_eq] at *; omega
+  -- number of remaining subtractions
+  obtain ⟨j, hj, hj1, hj2⟩ : ∃ j, j ≤ 3 ∧ j * d ≤ R ∧ R < j * d + d := by
+    refine ⟨R / d, ?_, Nat.div_mul_le_self R d, ?_⟩
+    · have : R / d < 4 := by rw [Nat.div_lt_iff_lt_mul hd0]; omega
+      omega
+    · have := Nat.lt_mul_div_succ R hd0
+      rw [Nat.mul_add, Nat.mul_one, Nat.mul_comm d] at this; exact this
+  obtain ⟨e1, e2⟩ := divmod_of_eq (nh * B + nl) d (q0 + j) (R - j * d) (by rw [Nat.add_mul]; omega) (by omega)
+  rw [e1, e2]
+  have hqj : q0 + j < B := by
+    have : (q0 + j) * d < B * d := by rw [Nat.add_mul, Nat.mul_comm B d]; omega
+    exact Nat.lt_of_mul_lt_mul_right this
+  generalize hJ : j * d = J at *
+  clear hn hnlt c1 c2 hv1 hv2 hRdef hR e1 e2 hXlt
+  unfold preinv1Adj1 preinv1Adj2
+  by_cases hx : R / B = 0
+  · -- R < B: at most one subtraction
+    have hx' : (R / B != 0) = false := by simp [hx]
+    rw [hx']
+    simp only [Bool.false_eq_true, if_false]
+    have hRB : R < B := by
+      rcases Nat.lt_or_ge R B with h | h
+      · exact h
+      · have : 1 ≤ R / B := (Nat.one_le_div_iff hB).mpr h
+        omega
+    rw [Nat.mod_eq_of_lt hRB]
+    have hj01 : j = 0 ∨ j = 1 := by
+      rcases Nat.lt_or_ge j 2 with h | h
+      · omega
+      · have : 2 * d ≤ j * d := Nat.mul_le_mul_right _ h
+        omega
+    rcases hj01 with rfl | rfl
+    · rw [Nat.zero_mul] at hJ; subst hJ
+      rw [if_neg (by omega)]; simp
+    · rw [Nat.one_mul] at hJ; subst hJ
+      rw [if_pos (by omega)]
+      refine Prod.ext ?_ ?_
+      · exact Nat.mod_eq_of_lt hqj
+      · show (R + B - d) % B = R - d
+        have : R + B - d = (R - d) + B := by omega
+        rw [this, Nat.add_mod_right, Nat.mod_eq_of_lt (by omega)]
+  · -- R ≥ B: one or two subtractions inside the first block
+    have hx' : (R / B != 0) = true := by simp [hx]
+    rw [hx']
+    simp only [if_true]
+    have hRB : B ≤ R := by
+      by_contra hcon
+      exact hx (Nat.div_eq_of_lt (by omega))
+    have h3B : 3 * B ≤ B * B := Nat.mul_le_mul_right _ (by rw [B_eq]; norm_num)
+    have hRBB : R < B * B := by omega
+    rw [sub2_eq R 0 d hRBB hB h2, Nat.zero_mul, Nat.zero_add]
+    have hR1 : (R + B * B - d) % (B * B) = R - d := by
+      have : R + B * B - d = (R - d) + B * B := by omega
+      rw [this, Nat.add_mod_right, Nat.mod_eq_of_lt (by omega)]
+    rw [hR1]
+    have hj4 : j = 0 ∨ j = 1 ∨ j = 2 ∨ j = 3 := by omega
+    have hq1 : (q0 + 1) % B = q0 + 1 := Nat.mod_eq_of_lt (by
+      rcases hj4 with rfl | rfl | rfl | rfl
+      · rw [Nat.zero_mul] at hJ; omega
+      all_goals omega)
+    rw [hq1]
+    by_cases hx2 : (R - d) / B = 0
+    · have hx2' : ((R - d) / B != 0) = false := by simp [hx2]
+      rw [hx2']
+      simp only [Bool.false_eq_true, if_false]
+      have hR1B : R - d < B := by
+        rcases Nat.lt_or_ge (R - d) B with h | h
+        · exact h
+        · have : 1 ≤ (R - d) / B := (Nat.one_le_div_iff hB).mpr h
+          omega
+      rw [Nat.mod_eq_of_lt hR1B]
+      rcases hj4 with rfl | rfl | rfl | rfl
+      · rw [Nat.zero_mul] at hJ; omega
+      · rw [Nat.one_mul] at hJ; subst hJ
+        rw [if_neg (by omega)]
+      · subst hJ
+        rw [if_pos (by omega)]
+        refine Prod.ext (Nat.mod_eq_of_lt (by omega)) ?_
+        show (R - d + B - d) % B = R - 2 * d
+        have : R - d + B - d = (R - 2 * d) + B := by omega
+        rw [this, Nat.add_mod_right, Nat.mod_eq_of_lt (by omega)]
+      · subst hJ; omega
+    · have hx2' : ((R - d) / B != 0) = true := by simp [hx2]
+      rw [hx2']
+      simp only [if_true]
+      have hR1B : B ≤ R - d := by
+        by_contra hcon
+        exact hx2 (Nat.div_eq_of_lt (by omega))
+      have hr2 : ((R - d) % B + B - d) % B = R - 2 * d := by
+        have e1 : (R - d) % B = R - d - B := by
+          have : R - d = (R - d - B) + B := by omega
+          rw [this, Nat.add_mod_right, Nat.mod_eq_of_lt (by omega)]; omega
+        rw [e1]
+        have : R - d - B + B - d = R - 2 * d := by omega
+        rw [this, Nat.mod_eq_of_lt (by omega)]
+      rw [hr2]
+      rcases hj4 with rfl | rfl | rfl | rfl
+      · rw [Nat.zero_mul] at hJ; omega
+      · rw [Nat.one_mul] at hJ; subst hJ; omega
+      · subst hJ
+        rw [if_neg (by omega)]
+        exact Prod.ext (Nat.mod_eq_of_lt (by omega)) rfl
+      · subst hJ
+        rw [if_pos (by omega)]
+        refine Prod.ext ?_ ?_
+        · show ((q0 + 1 + 1) % B + 1) % B = q0 + 3
+          have e1 : (q0 + 1 + 1) % B = q0 + 2 := Nat.mod_eq_of_lt (by omega)
+          rw [e1]; exact Nat.mod_eq_of_lt (by omega)
+        · show (R - 2 * d + B - d) % B = R - 3 * d
+          have : R - 2 * d + B - d = (R - 3 * d) + B := by omega
+          rw [this, Nat.add_mod_right, Nat.mod_eq_of_lt (by omega)]
+
+
 end Mpir.DivWord
